@@ -35,6 +35,13 @@ Oracle    with end = e (None: ledger end), period = d <= date < end, from the fu
                 the fixed order, whatever the expression;  BALANCES with F == per-account sums of the
                 clause-only SELECT rows satisfying F;
           (vi)  d > e: compile raises beanquery.CompilationError for all four kinds.
+History   the order of statements on ONE connection is part of the exploration: every statement above is
+          executed (a) on a brand-new connection (the reference results, checked by (i)-(vi)) and (b) on
+          a long-lived connection per ledger on which statements WITHOUT FROM clause (SELECT over
+          postings, SELECT FROM #entries, BALANCES, JOURNAL, PRINT) ran first and run again after every
+          configuration, and on which all configurations follow one another (different dates back to
+          back): (b) must return exactly what (a) returns, and the FROM-less statements must keep
+          returning the whole ledger -- neither the base tables nor an earlier period may leak.
 Weakest readings
           * Equity accounts have no per-account oracle (names / splitting of the carrying postings are
             beancount's business); synthetic rows are only constrained through (ii) (iii) (iv);
@@ -141,12 +148,17 @@ class Ledger:
         entries, errors, options = L.load(self.seq, seed)
         assert not errors, (seq, errors)
         self.entries, self.options = entries, options
-        self.conn = beanquery.connect('beancount:', entries=entries, errors=errors, options=options)
+        self.errors = errors
+        self.conn = self.fresh()
         self.txns = L.transactions(entries)
         assert all(t.flag == '*' for t in self.txns)
         ds = sorted({e.date for e in entries})
         self.dates = sorted({BEFORE, AFTER} | set(ds) | {d + ONE for d in ds})
         self.ids = {id(t): None for t in self.txns}
+
+    def fresh(self):
+        """A brand-new connection on the ledger: no statement has been executed on it."""
+        return beanquery.connect('beancount:', entries=self.entries, errors=self.errors, options=self.options)
 
     def txn_id(self, t):
         from beancount.core.compare import hash_entry
@@ -190,12 +202,12 @@ def clause_text(d, e, clear, fname='none'):
     return 'FROM ' + ' '.join(parts) if parts else '(no FROM)'
 
 
-def execute(led, kind, stmt):
+def execute(conn, kind, stmt):
     """-> result in the kind's own shape.  PRINT: list of entries selected by the compiled statement,
     cross-checked against the headers of the text execute_print writes."""
     if kind != 'print':
-        return led.conn.execute(stmt).fetchall()
-    c = led.conn.compile(stmt)
+        return conn.execute(stmt).fetchall()
+    c = conn.compile(stmt)
     entries = [row.entry for row in c.table if c.where is None or c.where(row)]
     buf = io.StringIO()
     query_execute.execute_print(c, buf)
@@ -362,8 +374,10 @@ def filter_expected(led, kind, fname, base):
     return sums
 
 
-def run_config(led, d, e, clear, stats):
-    """All kinds x filters of one clause configuration -> [(fingerprint, message, kind, filter)]."""
+def run_config(led, d, e, clear, stats, results=None):
+    """All kinds x filters of one clause configuration, each statement on a FRESH connection
+    -> [(fingerprint, message, kind, filter)]; results (optional dict) receives, per (kind, filter),
+    ('ok', result) or ('exc', exception class name)."""
     out = []
     base = {}
     for kind in KINDS:
@@ -372,14 +386,20 @@ def run_config(led, d, e, clear, stats):
             ctext = f'{kind.upper()} {clause_text(d, e, clear, fname)}'
             stats['statements'] += 1
             try:
-                result = execute(led, kind, stmt)
+                result = execute(led.fresh(), kind, stmt)
             except PrintMismatch as x:
                 out.append(('print:text-vs-selection', f'{ctext}: {x}', kind, fname))
+                if results is not None:
+                    results[kind, fname] = ('exc', 'PrintMismatch')
                 continue
             except Exception as x:
                 out.append((f'crash:{crash_fingerprint(x)}', f'{ctext}: {type(x).__name__}: {x}', kind, fname))
                 stats['crashes'] += 1
+                if results is not None:
+                    results[kind, fname] = ('exc', type(x).__name__)
                 continue
+            if results is not None:
+                results[kind, fname] = ('ok', result)
             stats['executed'] += 1
             stats['result_rows'] += len(result)
             if fname == 'none':
@@ -413,6 +433,95 @@ def run_config(led, d, e, clear, stats):
     return out
 
 
+BASE_KINDS = ['select', 'entries', 'balances', 'journal', 'print']
+
+
+def base_statement(kind):
+    """Statements WITHOUT a FROM clause (they iterate the connection's base tables themselves)."""
+    if kind == 'select':
+        return select([(col(c), c) for c in SELECT_COLS])
+    if kind == 'entries':
+        return select([(col('date'), 'date'), (col('type'), 'type'), (col('id'), 'id')], from_='entries')
+    if kind == 'balances':
+        return A.Balances(None, None, None)
+    if kind == 'journal':
+        return A.Journal(None, None, None)
+    return A.Print(None)
+
+
+class Warm:
+    """One long-lived connection per ledger on which statements without FROM clause (postings and entries
+    tables, BALANCES, JOURNAL, PRINT) are executed first and again between the clause statements, and on
+    which all clause configurations follow one another (different dates back to back).  Every result must
+    equal the result of the same statement on a fresh connection: neither the base tables nor an earlier
+    period may leak into a later statement, nor the other way round."""
+
+    def __init__(self, led, stats):
+        self.led = led
+        self.conn = led.fresh()
+        self.prev = None
+        self.base = {}
+        self.problems = []
+        for kind in BASE_KINDS:
+            stats['statements'] += 1
+            stats['history_statements'] += 1
+            r = self.run_base(kind)
+            self.base[kind] = r
+            if r[0] == 'ok' and kind in ('select', 'balances', 'journal', 'print'):
+                # the base statements themselves: the whole ledger, unchanged
+                for fp, msg in check_clause_only(led, kind, r[1], None, None, False, stats):
+                    self.problems.append((fp, 'statement without FROM clause: ' + msg, kind, 'none'))
+            elif r[0] == 'exc':
+                self.problems.append((f'crash:{r[2]}', f'{kind.upper()} without FROM clause: {r[1]}', kind, 'none'))
+
+    def run_base(self, kind):
+        try:
+            k = 'print' if kind == 'print' else 'select'
+            return ('ok', execute(self.conn, k, base_statement(kind)))
+        except Exception as x:
+            return ('exc', type(x).__name__, crash_fingerprint(x))
+
+    def follow(self, d, e, clear, results, stats):
+        """Execute the configuration's statements on the warm connection -> [(fp, msg, kind, filter)]."""
+        out = []
+        for (kind, fname), fresh in results.items():
+            stmt = statement(kind, fname, d, e, clear)
+            ctext = f'{kind.upper()} {clause_text(d, e, clear, fname)}'
+            stats['statements'] += 1
+            stats['history_statements'] += 1
+            try:
+                got = ('ok', execute(self.conn, kind, stmt))
+            except PrintMismatch:
+                got = ('exc', 'PrintMismatch')
+            except Exception as x:
+                got = ('exc', type(x).__name__)
+            stats['rows_compared'] += len(got[1]) if got[0] == 'ok' else 0
+            if got != fresh:
+                def brief(r):
+                    if r[0] == 'exc':
+                        return f'raises {r[1]}'
+                    return f'{len(r[1])} rows/entries'
+                n_first = next((i for i, (a, b) in enumerate(zip(got[1], fresh[1])) if a != b), None) if got[0] == fresh[0] == 'ok' else None
+                detail = ''
+                if n_first is not None:
+                    fmt = lambda x: (str(x.date), type(x).__name__, getattr(x, 'narration', None)) if hasattr(x, 'date') else tuple(str(v) for v in x[:6])
+                    detail = f'; first difference at index {n_first}: {fmt(got[1][n_first])} vs {fmt(fresh[1][n_first])}'
+                out.append(('history:clause-statement-depends-on-earlier-statements',
+                            f'{ctext}: on a connection that already executed statements without FROM clause'
+                            f'{" and " + clause_text(*self.prev) if self.prev else ""} the result is {brief(got)}, on a fresh connection {brief(fresh)}{detail}',
+                            kind, fname))
+        # the base tables after the clause statements
+        for kind in ('select', 'print'):
+            stats['statements'] += 1
+            stats['history_statements'] += 1
+            r = self.run_base(kind)
+            if r != self.base[kind]:
+                out.append(('history:base-table-result-changed', f'{kind.upper()} without FROM clause returns a different result after '
+                            f'{clause_text(d, e, clear)} was executed on the same connection', kind, 'none'))
+        self.prev = (d, e, clear)
+        return out
+
+
 def run_reject(led, d, e, clear, kind, fname, stats):
     """(vi) d > e must be rejected at compile time."""
     stmt = statement(kind, fname, d, e, clear)
@@ -420,7 +529,7 @@ def run_reject(led, d, e, clear, kind, fname, stats):
     stats['statements'] += 1
     stats['reject_cases'] += 1
     try:
-        led.conn.compile(stmt)
+        led.fresh().compile(stmt)
     except beanquery.CompilationError:
         stats['rejected'] += 1
         return []
@@ -458,7 +567,19 @@ def replay(case):
     led = Ledger(case['seq'], case['seed'])
     d, e = unjson(case['open']), unjson(case['close'])
     stats = Stats()
-    if case.get('reject'):
+    if case.get('base'):
+        out = Warm(led, stats).problems
+    elif case.get('history'):
+        warm = Warm(led, stats)
+        if case.get('prev'):
+            pd, pe, pc = unjson(case['prev'][0]), unjson(case['prev'][1]), case['prev'][2]
+            res = {}
+            run_config(led, pd, pe, pc, Stats(), res)
+            warm.follow(pd, pe, pc, res, Stats())
+        res = {}
+        run_config(led, d, e, case['clear'], Stats(), res)
+        out = [o for o in warm.follow(d, e, case['clear'], res, stats) if o[2] == case['kind'] and o[3] == case['filter']]
+    elif case.get('reject'):
         out = run_reject(led, d, e, case['clear'], case['kind'], case['filter'], stats)
     else:
         out = [o for o in run_config(led, d, e, case['clear'], stats) if o[2] == case['kind'] and o[3] == case['filter']]
@@ -473,15 +594,27 @@ def shard(shard_i, nshards, seqs, seed):
         led = Ledger(seq, seed)
         stats = Stats()
         mine_any = False
+        warm = None
         for ci, (d, e, clear) in enumerate(configurations(led.dates)):
             work += 1
             if not mine(work, shard_i, nshards):
                 continue
             mine_any = True
+            if warm is None:
+                warm = Warm(led, stats)
+                for fp, msg, kind, fname in warm.problems:
+                    acc.violation(fp, f'ledger {list(seq)}: {msg}', dict(mkcase(led, None, None, False, kind, fname), base=True))
             acc.count('configurations')
             acc.add('clause_shapes', (d is not None, 'dateless' if e is True else ('date' if e is not None else 'absent'), clear))
-            for fp, msg, kind, fname in run_config(led, d, e, clear, stats):
+            results = {}
+            for fp, msg, kind, fname in run_config(led, d, e, clear, stats, results):
                 acc.violation(fp, f'ledger {list(seq)}: {msg}', mkcase(led, d, e, clear, kind, fname))
+            prev = warm.prev
+            for fp, msg, kind, fname in warm.follow(d, e, clear, results, stats):
+                case = mkcase(led, d, e, clear, kind, fname)
+                case['history'] = True
+                case['prev'] = None if prev is None else [jsonable(prev[0]), jsonable(prev[1]), prev[2]]
+                acc.violation(fp, f'ledger {list(seq)}: {msg}', case)
         # (vi) every d > e
         for d in led.dates:
             for e in led.dates:
@@ -503,7 +636,7 @@ def shard(shard_i, nshards, seqs, seed):
                 acc.count(k, v)
         if shard_i == li % nshards and mine_any:
             d, e = led.dates[len(led.dates) // 2], led.dates[-3]
-            rows = led.conn.execute(statement('select', 'none', d, e, True)).fetchall()
+            rows = led.fresh().execute(statement('select', 'none', d, e, True)).fetchall()
             acc.sample({'ledger': list(seq), 'dates_enumerated': [str(x) for x in led.dates],
                         'statement': 'SELECT date, flag, narration, account, position, price, id, entry ' + clause_text(d, e, True),
                         'rows': [[str(v) for v in r[:5]] for r in rows]}, limit=1)
@@ -574,6 +707,7 @@ def run(ctx):
         'closed_reports_totalled_at_cost': c['closed_reports_totalled'],
         'closed_reports_where_equity_carries_nonzero': c['closed_reports_with_nonzero_equity'],
         'filter_cases_cutting_rows': c['filters_that_cut'],
+        'statements_on_the_long_lived_connection': c['history_statements'],
         'close_before_open_cases': c['reject_cases'],
         'close_before_open_rejected': c['rejected'],
         'violating_cases': c['violating_cases'],
@@ -585,5 +719,6 @@ def run(ctx):
         'Equity accounts have no per-account oracle; their role is checked through every returned transaction balancing',
         'PRINT: only Transaction directives are constrained by (i)-(iv); JOURNAL balance column not compared; BALANCES missing account == empty',
         'beanquery.parser.parse memoised by text during the check (transform_balances/transform_journal re-parse a fixed template on every compile)',
+        'results on the long-lived connection are compared by value (==) with the results on fresh connections',
         'beancount loader, Inventory, interpolate, printer are trusted; the reference never calls beancount.ops.summarize',
     ])
